@@ -245,7 +245,9 @@ func visitInstr(fr *frame, instr ssa.Instruction) continuation {
 		fn, args := prepareCall(fr, &instr.Call)
 		g.ex.spawn(g, fn, args, !g.ex.prog.isHarnessPos(instr.Pos()), g.pos(instr.Pos()))
 	case *ssa.MakeChan:
-		fr.env[instr] = g.ex.newChan(int(concInt(g, fr.get(instr.Size))))
+		c := g.ex.newChan(int(concInt(g, fr.get(instr.Size))))
+		c.site = strings.TrimPrefix(g.ex.prog.fset.Position(instr.Pos()).String(), g.ex.prog.repo+"/")
+		fr.env[instr] = c
 	case *ssa.Alloc:
 		var addr *value
 		if instr.Heap {
